@@ -1117,3 +1117,17 @@ Qed.
 
 Lemma model_meets_spec_LCX i : specL i (model i) && specC i (model i) && specX i (model i) = true.
 Proof. now rewrite specL_model, specC_model, specX_model. Qed.
+
+(* an expired (or absent) session never resolves, for any caller, worker or token *)
+Lemma expired_lost st w c tok :
+  (forall e, In e (ents st) -> e_sid e = k_sid tok -> (e_exp e < now st)%Z) ->
+  snd (resolve st w c (Some tok)) = None.
+Proof.
+  intro Hexp. unfold resolve.
+  destruct (negb (beqb (k_aad tok) (aad c))); [reflexivity|].
+  destruct (negb (k_w tok =? w)); [reflexivity|].
+  destruct (find_ent w (k_sid tok) (ents st)) as [e|] eqn:Ef; [|reflexivity].
+  unfold find_ent in Ef. apply find_some in Ef as [Hin Hc]. apply andb_true_iff in Hc as [H1 _].
+  apply N.eqb_eq in H1. specialize (Hexp e Hin H1).
+  destruct (e_exp e <? now st)%Z eqn:Ex; [reflexivity | lia].
+Qed.
